@@ -32,7 +32,7 @@ from parsers import *
 LEVEL = 'other'
 EXPLANATION = __doc__
 ASSUMPTIONS = ['roff treats a line as a request only if it starts with `.` or `\'`; HTML text needs only < and > escaped outside attributes']
-FLOORS = {'T.html-taint': 2, 'G.html-tags': 14, 'P.token-pairing': 15, 'E.roff-escaper': 6, 'U.unescaped': 12, 'S.sections': 7, 'C.capture': 4}
+FLOORS = {'T.html-taint': 2, 'G.html-tags': 14, 'P.token-pairing': 15, 'E.roff-escaper': 6, 'U.unescaped': 12, 'S.sections': 7, 'C.capture': 4, 'K.cursor': 3, 'K.skip-pairing': 1}
 
 def run(ctx):
     cfgs = ['doc', 'all'] if ctx.tier == 'quick' else ['doc', 'all', 'autocomplete,docgen', 'docgen,dull-color']
@@ -46,6 +46,9 @@ def run(ctx):
         ctx.guard(unescaped, ctx, cfg, fs)
         ctx.guard(capture_pairing, ctx, cfg, fs)
         ctx.guard(sections, ctx, cfg, fs)
+        import docwalk
+        ctx.guard(docwalk.cursor_advance, ctx, cfg, fs, 'K.cursor', r'render_html$|render_markdown$|render_roff$')
+        ctx.guard(docwalk.block_pairing, ctx, cfg, fs, 'K.skip-pairing', r'impl buffer::Doc>::render_html$', [('skip', r'buffer::Skip::push$', r'buffer::Skip::pop$')])
 
 def out_string(b):
     for c in b.calls():
